@@ -7,7 +7,7 @@ import re
 from .. import jmodel as J
 from ..eqmodel import eq_disjuncts, hash_paths, attrs_read
 from ..pymodel import package
-from ..valueflow import Flow, as_map, match, V, show, simp, walk
+from ..valueflow import Flow, as_map, match, V, show, simp, walk, acc_comp, expand_dict_loops
 
 EXPLANATION = (
     "R1 every character that can reach Species.alias / an element macro suffix (characters of the default element and pseudo-element symbols, "
@@ -431,32 +431,53 @@ def _r4_defs(ctx, pkg):
         ctx.check(ok, "R5", f"constants.py:{name}", (PYCONST, it[2] if it is not None and it[0] == "out" else 0), f"{name} = {J.show(seq)} | length",
                   found=J.show(it[1]) if it is not None and it[0] == "out" else "missing")
     # render.py summary and NetworkConfiguration
+    # by role: the lists are what is stored under summary["list_of_..."], in whichever method of the command builds the table
+    # (a `for key, names in {..}.items(): summary[f"list_of_{key}"] = names` loop is one store per entry)
+    rc = pkg.cls("RenderCommand")
     h = pkg.method("RenderCommand", "handle")
     ctx.saw(RENDER, "RenderCommand.handle")
-    fl = Flow(h, RENDER)
-    net = None
-    # by role: the lists are what is stored under summary["list_of_..."]
-    stored = {f.index[1]: f for f in fl.facts if f.kind == "store" and f.index and f.index[0] == "const" and isinstance(f.index[1], str) and f.index[1].startswith("list_of_")}
+    stored, counts = {}, []
+    for mname, mfn in rc.methods.items():
+        mfl = Flow(mfn, RENDER)
+        for f in mfl.facts:
+            if f.kind != "store" or f.index is None:
+                continue
+            for idx, val in expand_dict_loops(f):
+                if idx[0] == "const" and isinstance(idx[1], str) and idx[1].startswith("list_of_"):
+                    stored[idx[1]] = (mfl, f, val)
+                elif idx[0] == "const" and idx[1] in ("num_of_elements", "num_of_species"):
+                    counts.append((idx[1], f, val))
+                elif idx[0] != "const" and any(isinstance(x, tuple) and x[:1] == ("const",) and isinstance(x[1], str) and x[1].startswith(("list_of_", "num_of_")) for x in walk(idx)):
+                    ctx.unrec("R4", f"render.py summary:{show(idx)[:40]}", (RENDER, f.line), "a summary key that is not a literal (nor a literal-table loop)")
     for nm, (skey, attr, fld) in {"all_elements": ("list_of_elements", "elements", "name"), "all_species": ("list_of_species", "species", "name"),
                                   "all_alias": ("list_of_species_alias", "species", "alias")}.items():
-        sf = stored.get(skey)
-        a = [(sf.value, None, None, sf.line)] if sf is not None else []
-        ok = False
-        found_s = ""
-        if a:
-            m = as_map(simp(a[-1][0]))
-            if m:
-                bv, body, base, ifs = m
-                found_s = f"[{show(body)} for .. in {show(base)}]"
-                ok = body == ("attr", bv, fld) and not ifs and base[0] == "attr" and base[2] == attr and base[1][0] != "const"
-                net = base[1]
-        ctx.check(ok, "R4", f"render.py summary:{nm}", (RENDER, a[-1][3] if a else h.lineno), f"{nm} = [x.{fld} for x in net.{attr}] (same sequence, same order)", found=found_s)
-    for f in fl.facts:
-        if f.kind == "store" and f.index and f.index[0] == "const" and f.index[1] in ("num_of_elements", "num_of_species"):
-            attr = "elements" if "elements" in f.index[1] else "species"
-            v = simp(f.value)
-            ok = v[0] == "call" and v[1] == ("global", "len") and v[2][0][0] == "attr" and v[2][0][2] == attr
-            ctx.check(ok, "R5", f"render.py summary:{f.index[1]}", (RENDER, f.line), f"{f.index[1]} = len(net.{attr})", found=show(v)[:60])
+        key = f"render.py summary:{nm}"
+        if skey not in stored:
+            ctx.missing("R4", key, (RENDER, h.lineno), f"no store of summary[{skey!r}] found in RenderCommand")
+            continue
+        mfl, sf, val = stored[skey]
+        val = simp(val)
+        if val[0] == "acc":
+            # a list filled by `x.append(..)` in a loop next to other statements
+            comp = acc_comp(mfl, val[1])
+            if comp is None:
+                ctx.unrec("R4", key, (RENDER, sf.line), f"the list `{val[1]}` is accumulated in a way that is not understood (not one append in one loop)")
+                continue
+            val = comp
+        m = as_map(val)
+        if not m:
+            ctx.unrec("R4", key, (RENDER, sf.line), f"summary[{skey!r}] is not a list built from a network sequence: {show(val)[:100]}")
+            continue
+        bv, body, base, ifs = m
+        ok = body == ("attr", bv, fld) and not ifs and base[0] == "attr" and base[2] == attr and base[1][0] != "const"
+        ctx.check(ok, "R4", key, (RENDER, sf.line), f"{nm} = [x.{fld} for x in net.{attr}] (same sequence, same order)",
+                  found=f"[{show(body)} for .. in {show(base)}{' if ' + ' and '.join(show(c) for c in ifs) if ifs else ''}]")
+    for name, f, v in counts:
+        attr = "elements" if "elements" in name else "species"
+        v = simp(v)
+        ok = v[0] == "call" and v[1] == ("global", "len") and len(v[2]) == 1 and v[2][0][0] == "attr" and v[2][0][2] == attr
+        ctx.check(ok, "R5", f"render.py summary:{name}", (RENDER, f.line), f"{name} = len(net.{attr})", found=show(v)[:60])
+    ctx.floor("R5", "render.py summary counts", len(counts), 2, (RENDER, h.lineno))
     ci = pkg.cls("NetworkConfiguration")
     init = ci.methods["__init__"]
     ctx.saw(CONF, "NetworkConfiguration.__init__")
@@ -1061,6 +1082,8 @@ MUTANTS = [
         {"file": SP, "old": '                "I" * (self.charge + 1) if self.charge >= 0 else "M" * abs(self.charge),\n', "new": "                self._charge_run(),\n"},
         {"file": SP, "old": "    @alias.setter\n", "new": '    def _charge_run(self):\n        q = self.charge\n        if q >= 0:\n            return "I" * (q + 1)\n        return "M"\n\n    @alias.setter\n'}], "rules": ["R6"]},
     {"name": "krome-cation-suffix-single-I", "file": KRF, "old": 'rate = re.sub(r"(idx_.?)p", r"\\1II", rate)', "new": 'rate = re.sub(r"(idx_.?)p", r"\\1I", rate)', "rules": ["R6"]},
+    {"name": "summary-alias-loop-skips-ice", "file": RENDER, "old": "        all_species = [x.name for x in net.species]\n        all_alias = [x.alias for x in net.species]\n",
+     "new": "        all_species = []\n        all_alias = []\n        for sp in net.species:\n            all_species.append(sp.name)\n            if not sp.is_surface:\n                all_alias.append(sp.alias)\n", "rules": ["R4"]},
     {"name": "alias-single-M", "file": SP, "old": 'else "M" * abs(self.charge),', "new": 'else "M",', "rules": ["R6"]},
     {"name": "grackle-HeII", "file": PATCH, "old": '        "HeII",\n        "HeIII",', "new": '        "HeI",\n        "HeIII",', "rules": ["R6"]},
     {"name": "wrapper-set-deleted", "file": WRAP, "old": "        {% set specnum = species.network | map(attribute='alias') | map('suffix', \"Num\") -%}\n        {% for s, n in zip(network.species, specnum) -%}\n          BaryonField", "new": "        {% for s, n in zip(network.species, specnum) -%}\n          BaryonField", "rules": ["R8"]},
@@ -1089,6 +1112,8 @@ BENIGN = [
     {"name": "krome-rewrites-as-compiled-table", "file": KRF,
      "old": '        rate = re.sub(r"(\\d\\.?)d(\\-?\\d)", r"\\1e\\2", self.rate_string)\n        rate = re.sub(r"(idx_.?)p", r"\\1II", rate)\n        rate = re.sub(r"(idx_.?)m", r"\\1M", rate)\n        rate = re.sub(r"(idx_.?)\\)", r"\\1I)", rate)\n',
      "new": '        rate = self.rate_string\n        for pat, rep in ((re.compile(r"(\\d\\.?)d(\\-?\\d)"), r"\\1e\\2"), (re.compile(r"(idx_.?)p"), r"\\1II"), (re.compile(r"(idx_.?)m"), r"\\1M"), (re.compile(r"(idx_.?)\\)"), r"\\1I)")):\n            rate = pat.sub(rep, rate)\n'},
+    {"name": "summary-lists-filled-in-one-loop", "file": RENDER, "old": "        all_species = [x.name for x in net.species]\n        all_alias = [x.alias for x in net.species]\n",
+     "new": "        all_species = []\n        all_alias = []\n        for sp in net.species:\n            all_species.append(sp.name)\n            all_alias.append(sp.alias)\n"},
     {"name": "elem-symbol-through-set", "file": MACROS, "old": "{% for spec in network.elements %}\n#define IDX_ELEM_{{ spec.element_count.keys() | first }} {{ loop.index0 }}",
      "new": "{% for elem in network.elements %}\n{% set symbol = elem.element_count | first %}\n#define IDX_ELEM_{{ symbol }} {{ loop.index0 }}"},
     {"name": "index-macro", "edits": [
